@@ -50,7 +50,7 @@ Step(ev) ==
                      /\ ev.at[i] = MT(ev.a[i]) /\ ev.att[i] = ev.a[i] IN
          ChkAll(DOMAIN ev.a, G, "Matrix4 product / transposition laws")
     [] ev.e = "inv" ->
-         LET G(i) == InvOk(ev.m[i], ev.xhi[i], ev.xlo[i]) IN
+         LET G(i) == InvOk(ev.m[i], ev.mf[i], ev.xhi[i], ev.xlo[i]) IN
          ChkAll(DOMAIN ev.m, G, "M * inverse(M) is not the identity to 1e-9")
     [] OTHER -> Bad("no specification action for event " \o ev.e)
 Next == l <= Len(Tr) /\ l' = l + 1 /\ Step(Tr[l])
